@@ -4,7 +4,7 @@
 (/tmp/mut_w<N>, /verif/build/*-<hash>) so that consecutive mutations only rebuild the edited translation unit;
 `--clean` removes them.  Nothing here ever touches /repo.
 
-  tools/sens.py [-w N] [--tier quick] C15            run all mutations registered for C15 in tools/mutations.py
+  tools/sens.py [-w N] [--tier quick] C15            run all mutations registered for C15 in props/cNN.py (MUTATIONS)
   tools/sens.py [-w N] C15:2                         only mutation #2
   tools/sens.py [-w N] --patch FILE C07              apply a unified diff (e.g. seeded/<id>/patch.diff) instead
   tools/sens.py -w N --clean
@@ -48,6 +48,7 @@ def main():
     ap.add_argument("--clean", action="store_true")
     ap.add_argument("--patch")
     ap.add_argument("--keep", action="store_true", help="leave the mutation applied (debugging)")
+    ap.add_argument("--expect", default="violation", choices=["violation", "ok"], help="ok: the patch is a proposed fix, the check must pass")
     ap.add_argument("targets", nargs="*")
     a = ap.parse_args()
     work = "/tmp/mut_w%d" % a.worker
@@ -58,7 +59,8 @@ def main():
             if d.endswith("-" + t):
                 shutil.rmtree(os.path.join(HERE, "build", d), ignore_errors=True)
         return 0
-    import mutations
+    sys.path.insert(0, HERE); sys.path.insert(0, os.path.join(HERE, "lib"))
+    import importlib
     os.makedirs(os.path.join(HERE, "sensitivity"), exist_ok=True)
     allok = True
     for tgt in a.targets:
@@ -66,7 +68,7 @@ def main():
         if a.patch:
             muts = [dict(name=os.path.basename(os.path.dirname(os.path.abspath(a.patch))) or a.patch, patch=a.patch)]
         else:
-            muts = mutations.M.get(pid, [])
+            muts = list(getattr(importlib.import_module("props." + pid.lower()), "MUTATIONS", []))
             if idx:
                 muts = [muts[int(idx)]]
         for m in muts:
@@ -82,7 +84,7 @@ def main():
                     s = s.replace(old, new, 1)
                     open(p, "w", encoding="utf-8", errors="surrogateescape").write(s)
             rc, out, wall = run_check(work, pid, a.tier, a.seed, a.timeout)
-            caught = rc == 1 and "VIOLATION property=%s" % pid in out
+            caught = (rc == 1 and "VIOLATION property=%s" % pid in out) if a.expect == "violation" else (rc == 0)
             line = [l for l in out.splitlines() if l.startswith(("VIOLATION", "BROKEN", "OK ", "KNOWN"))]
             detail = [l for l in out.splitlines() if l.startswith("--- failing case")]
             rec = dict(property=pid, mutation=m["name"], tier=a.tier, seed=a.seed, caught=caught, rc=rc, wall_s=round(wall, 1),
